@@ -3,9 +3,19 @@
    committed so far, then `tail` (a claimed frame or nothing: its length word is not positive).  A position "on frame
    boundary a" of the stream stays on a frame boundary under every poll flavour, and what the polls consume is the
    stream's data frames between the boundaries - once each, in order. *)
-Require Import V.Base.MachineInt V.Generated.GenConsts V.Model.LogBase V.Model.Descriptor V.Model.Reader V.Model.Image
-               V.Oracle.C05Cases V.Oracle.C05Oracle V.Proofs.DescriptorProofs V.Proofs.ReaderProofs V.Proofs.ImageProofs
-               V.Proofs.C05OracleProofs V.Proofs.C05Readable.
+Require Import V.Base.MachineInt.
+Require Import V.Generated.GenConsts.
+Require Import V.Model.LogBase.
+Require Import V.Model.Descriptor.
+Require Import V.Model.Reader.
+Require Import V.Model.Image.
+Require Import V.Oracle.C05Cases.
+Require Import V.Oracle.C05Oracle.
+Require Import V.Proofs.DescriptorProofs.
+Require Import V.Proofs.ReaderProofs.
+Require Import V.Proofs.ImageProofs.
+Require Import V.Proofs.C05OracleProofs.
+Require Import V.Proofs.C05Readable.
 From Coq Require Import ZifyBool.
 Open Scope Z_scope.
 
